@@ -291,6 +291,7 @@ func runBatches(r *ev.Run, xz *xzTool, scratch string, hw *hangWatch, nBatches i
 			var which []int
 			for i, sp := range specs {
 				hw.set(w, func() string { return fmt.Sprintf("round trip %s of %s", f.name, sp) })
+				hw.wit[w] = func() any { return rtWitness{"roundtrip", f.name, "hang", sp, "Encode/Decode does not return"} }
 				enc := checkPayload(r, f, sp, payloads[i], &st)
 				hw.clear(w)
 				if enc == nil || xz == nil {
